@@ -34,7 +34,7 @@ pub fn cases(mode: &'static str, recvs: &'static BTreeMap<&'static str, RecvDesc
         let mut keys: Vec<Key> = Vec::new();
         for c in &base.log {
             let key = match (c.item, c.hook.as_str()) {
-                (Some(id), "from_meta") | (Some(id), "with") | (Some(id), "from_string") | (Some(id), "from_field") => Some(Key::Item(id)),
+                (Some(id), "from_meta") | (Some(id), "with") | (Some(id), "from_string") | (Some(id), "from_field") | (Some(id), "from_value") | (Some(id), "from_expr") => Some(Key::Item(id)),
                 (Some(id), "map") | (Some(id), "and_then") => Some(Key::Post(id)),
                 (None, "from_none") | (None, "container_from_none") => None,
                 (None, h) => Some(Key::Site(c.site, h.to_string())),
